@@ -392,6 +392,73 @@ def judge(text, m, rng, shadows=True, origin="enum"):
         if not same_outcome(real, out):
             m.violation(name, f"{text!r} -> {real}  but  {variant!r} -> {out}",
                         case={**case, "variant": variant, "add_intercept": add}, key=name)
+    # no accepted formula contains a token that was ignored: renaming one variable occurrence to a name
+    # that occurs nowhere else must change the model (formulas without a formula-level `-`)
+    fresh = "zq9"
+    while fresh in text:
+        fresh += "q"
+    try:
+        renamed = rename_one(ref_ast, rng, fresh)
+        variant = G.fp(renamed) if renamed is not None else None
+    except Exception:
+        variant = None
+    m.ev("no-token-ignored", applicable=variant is not None)
+    if variant is not None:
+        with core.shadow():
+            out = real_model(variant, False)
+        if out[0] == "ok" and out[1] == real[1]:
+            m.violation("no-token-ignored",
+                        f"{text!r} and {variant!r} (one variable renamed to {fresh!r}) both give {real[1]}",
+                        case={**case, "variant": variant, "add_intercept": False}, key="token-ignored")
+
+
+def rename_one(ast, rng, fresh):
+    """The AST with ONE variable occurrence renamed to a name the text does not contain, or None when
+    the formula has a `-` or a `0` at formula level (a set difference may legitimately leave an operand
+    without effect) or no variable."""
+    spots = []
+
+    def scan(nd, in_call, path):
+        k = nd[0]
+        if k == "bin":
+            if nd[1] == "-" and not in_call:
+                raise LookupError
+            scan(nd[2], in_call, path + (2,)); scan(nd[3], in_call, path + (3,))
+        elif k == "un":
+            if nd[1] == "-" and not in_call:
+                raise LookupError
+            scan(nd[2], in_call, path + (2,))
+        elif k == "call":
+            for j, a in enumerate(nd[2]):
+                scan(a, True, path + (2, j))
+        elif k == "kw":
+            scan(nd[2], in_call, path + (2,))
+        elif k == "var":
+            spots.append(path)
+        elif k == "lit" and not in_call and nd[2] is None and nd[1] == 0 and not isinstance(nd[1], bool):
+            raise LookupError  # `1 + 0` is an empty model, and an interaction with nothing is nothing
+
+    try:
+        scan(ast, False, ())
+    except LookupError:
+        return None
+    if not spots:
+        return None
+    target = rng.choice(spots)
+
+    def rebuild(nd, path):
+        if not path:
+            return ("var", fresh, nd[2])
+        j = path[0]
+        if nd[0] == "call" and j == 2:
+            args = list(nd[2])
+            args[path[1]] = rebuild(args[path[1]], path[2:])
+            return (nd[0], nd[1], args)
+        new = list(nd)
+        new[j] = rebuild(nd[j], path[1:])
+        return tuple(new)
+
+    return rebuild(ast, target)
 
 
 def _printable(t):
